@@ -15,6 +15,15 @@
 //	route prog-forms generated programs that put pairs of up to 14 values through every construct defined
 //	                by equality (==, !=, through parameters, as branch condition, wrapped into a list / option /
 //	                object, list.contains, match arms) on both backends (forms.go)
+//	route prog-snapshot generated programs on both backends in which a `for` loop — the one construct by which
+//	                a program clones a value — runs over an existing list denoted by every expression form
+//	                (variable, field, index, group, block / if / match, cast, calls returning a parameter / a
+//	                field / a global, unwrap / unwrap_or / expect, list literals of existing elements) while the
+//	                body changes the contents of the loop variable, pushes to the original, or breaks and loops
+//	                again (snapshot.go)
+//
+// The pools of the JSON routes also hold any-objects with `none` in their untyped content (a member
+// holding none, alone and next to others, and below an object of the content).
 //
 // The pools of the eq, display and prog routes contain, next to the structural near misses, the
 // closest distinct LEAF values (forms.go: ints that collide as float64 / int32, adjacent floats,
@@ -50,6 +59,7 @@ func (c13) Info(tier string) fw.Info {
 			"inclusive/exclusive range, any-object key on one side only), closest distinct leaf values (ints above 2^53 / 2^32 apart, adjacent floats, strings differing in the last rune, NFC-normal strings that collide under compatibility normalisation / case or width folding / stripping of marks, ignorables and emoji modifiers) and unrelated values, all ordered pairs and all triples. clone: every pool value, seed-generated histories of 1-20 " +
 			"mutations at random depth. json/display/prog: every pool value that the route can carry; prog-forms: per type and window of leaf-edge groups one program over <= 14 values (thorough 20) printing all pairs through == and !=, and neighbouring pairs through fn parameters, if, [a]==[b], (?a)==(?b), new{w:a}==new{w:b}, [b].contains(a) and match arms. non-trivial = eq: the pool contained both an equal and an unequal pair of distinct " +
 			"instances; clone: at least one mutation was applied below the root and both sides were compared afterwards; json: a round trip was completed and compared; " +
+			"prog-snapshot: per element type one program with one block per (expression form denoting an existing list, body: M changes the contents of the loop variable / G pushes to the original / B breaks and loops again), judged against snapshot semantics. " +
 			"display: both libraries rendered; prog: both backends ran to completion; distinct = distinct (route, lib, type, value list / history seed)",
 		Assumptions: []string{
 			"structural content: floats compare numerically (-0.0 == 0.0), ranges by start, end and inclusivity, objects by key set and per-key content",
@@ -57,6 +67,7 @@ func (c13) Info(tier string) fw.Info {
 				"ranges, functions, nested options (??T) and null-typed values have no faithful JSON form and are not demanded to round-trip",
 			"the interpreter value library has no Clone operation; the copy laws are monitored on the VM library",
 			"mutation histories insert freshly built values on each side (sharing introduced by the caller is not a defect)",
+			"at program level the `for` loop is the clone operation (it runs on a clone of the iterated value on both back ends): the mutation histories of prog-snapshot are applied through the loop variable and to the iterated list while the loop runs",
 		},
 		CaseTimeoutS: 120,
 		BatchSize:    40,
@@ -228,13 +239,13 @@ func jsonCarries(v vu.Val, t vu.Type) bool {
 	var walk func(x vu.Val, inAny bool)
 	walk = func(x vu.Val, inAny bool) {
 		switch x.K {
-		case vu.VNone, vu.VSome:
+		case vu.VNone:
+			// `none` is written as null and null is read back as none, typed or untyped
+		case vu.VSome:
 			if inAny {
-				carry = false
+				carry = false // Some(x) is written as x and comes back from untyped content as x
 			}
-			if x.K == vu.VSome {
-				walk(*x.Inner, inAny)
-			}
+			walk(*x.Inner, inAny)
 		case vu.VNull, vu.VRange:
 			carry = false
 		case vu.VList:
@@ -342,6 +353,13 @@ func basePool(p payload) []vu.Val {
 			}
 		}
 	}
+	// the JSON routes: `none` inside the UNTYPED content of an any-object (a member that holds none,
+	// alone and next to other members, and below an object of the content): null is the one JSON
+	// node whose reading does not depend on the type, so the key must survive without a type that
+	// names it
+	if p.Route == "json" || p.Route == "prog-json" {
+		vals = append(vals, untypedNoneVariants(vals, p.T)...)
+	}
 	// the JSON routes: one string that carries a member of most fold classes of forms.go (the text
 	// must come back code point for code point)
 	if p.Route == "json" || p.Route == "prog-json" {
@@ -356,6 +374,33 @@ func basePool(p payload) []vu.Val {
 		}
 	}
 	return vals
+}
+
+// untypedNoneVariants returns, for the first pool value with a non-empty any-object at a typed
+// position and for the first one with an empty any-object, copies in which that any-object holds
+// none: as an additional member, as its only member, and as a member of an object in its content.
+func untypedNoneVariants(vals []vu.Val, t vu.Type) []vu.Val {
+	var out []vu.Val
+	doneFull, doneEmpty := false, false
+	for _, v := range vals {
+		for _, tp := range vu.TypedPositions(v, t) {
+			if tp.T.K != vu.TAnyObj || tp.V.K != vu.VAnyObj {
+				continue
+			}
+			if len(tp.V.Keys) > 0 && !doneFull {
+				doneFull = true
+				out = append(out, replaceAt(v, tp.Path, tp.V.With("nn", vu.NoneV())))
+				out = append(out, replaceAt(v, tp.Path, tp.V.With("on", vu.ObjV(kv("p", vu.IntV(7)), kv("q", vu.NoneV())))))
+			} else if len(tp.V.Keys) == 0 && !doneEmpty {
+				doneEmpty = true
+				out = append(out, replaceAt(v, tp.Path, vu.AnyObjV(kv("nn", vu.NoneV()))))
+			}
+		}
+		if doneFull && doneEmpty {
+			break
+		}
+	}
+	return out
 }
 
 func replaceAt(v vu.Val, p vu.Path, x vu.Val) vu.Val {
@@ -419,6 +464,9 @@ func (c13) Cases(tier string, seed uint64) []fw.Case {
 		for part := 0; part < parts || part == 0; part++ {
 			add(payload{Route: "prog-forms", Lib: "both", T: t, Width: width, Max: formsN, Avoid: avoid, Part: part})
 		}
+		if t.K != vu.TNull {
+			add(payload{Route: "prog-snapshot", Lib: "both", T: t, Width: width, Avoid: avoid})
+		}
 		if t.K == vu.TList || t.K == vu.TObj || t.K == vu.TAnyObj {
 			if jsonCarries(vu.Typed(t, 2)[0], t) {
 				add(payload{Route: "prog-json", Lib: "both", T: t, Width: width, Max: progN, Avoid: avoid, Seed: r.Next()})
@@ -448,6 +496,8 @@ func (c13) Run(c fw.Case) (res fw.Result) {
 		j.progJSON()
 	case "prog-forms":
 		j.progForms()
+	case "prog-snapshot":
+		j.progSnapshot()
 	default:
 		return fw.Result{Verdict: fw.Inconclusive, Why: "unknown route " + p.Route}
 	}
